@@ -505,5 +505,48 @@ theorem c18_shape_config_ambiguousKeys :
      "return:xerrors.Errorf(\"\",strings.Replace(prev,\"\",\"\",-1),strings.Replace(exact,\"\",\"\",-1))",
      "return:nil"] := rfl
 
+theorem c18_shape_config_GroupToml_String :
+    Shapes.app_config_GroupToml_String =
+   ["if:(s.Description==\"\")", "toml.NewEncoder", "enc.Encode", "if:(err!=nil)",
+     "return:(\"\"+err.Error())", "return:buff.String()"] := rfl
+
+theorem c18_shape_config_GroupToml_Save :
+    Shapes.app_config_GroupToml_Save =
+   ["os.Create", "defer:file.Close", "gt.String", "file.WriteString"] := rfl
+
+theorem c18_shape_config_Group_Save :
+    Shapes.app_config_Group_Save =
+   ["g.Toml", "gt.Save"] := rfl
+
+theorem c18_shape_config_ServerToml_ToServerIdentity :
+    Shapes.app_config_ServerToml_ToServerIdentity =
+   ["suites.Find", "encoding.ReadHexPoint", "network.NewServerIdentity",
+     "parseServerServiceConfig"] := rfl
+
+theorem c18_shape_config_NewServerToml :
+    Shapes.app_config_NewServerToml =
+   ["encoding.WriteHexPoint", "suite.String", "buff.String"] := rfl
+
+theorem c18_shape_config_ServerToml_String :
+    Shapes.app_config_ServerToml_String =
+   ["if:(s.Description==\"\")", "toml.NewEncoder", "enc.Encode", "if:(err!=nil)",
+     "return:(\"\"+err.Error())", "return:buff.String()"] := rfl
+
+theorem c18_shape_struct_ServerIdentity_Toml :
+    Shapes.network_struct_ServerIdentity_Toml =
+   ["encoding.WriteHexPoint", "buf.String"] := rfl
+
+theorem c18_shape_struct_ServerIdentityToml_ServerIdentity :
+    Shapes.network_struct_ServerIdentityToml_ServerIdentity =
+   ["encoding.ReadHexPoint"] := rfl
+
+theorem c18_shape_Roster_Toml :
+    Shapes.tree_Roster_Toml =
+   ["List[].Toml"] := rfl
+
+theorem c18_shape_RosterToml_Roster :
+    Shapes.tree_RosterToml_Roster =
+   ["List[].ServerIdentity"] := rfl
+
 
 end C18
